@@ -7,6 +7,7 @@ import (
 	"fmt"
 	"os"
 	"path/filepath"
+	"regexp"
 	"sort"
 	"strings"
 	"syscall"
@@ -177,6 +178,9 @@ func Run(sc *uw.Scenario) *simkit.Outcome {
 			}
 		}
 	}
+	if sc.DstMissing {
+		os.Remove(strings.TrimRight(sc.Dst, "/"))
+	}
 	for _, f := range []string{"/w/shared/keep", "/w/deep2/shared/keep", "/w/shared-secrets/keep", "/w/sharedx"} {
 		os.MkdirAll(filepath.Dir(f), 0o755)
 		os.WriteFile(f, []byte("OUT-shared"), 0o644)
@@ -284,6 +288,8 @@ func Run(sc *uw.Scenario) *simkit.Outcome {
 				}
 			}
 		}
+		_, dstErr := os.Lstat(strings.TrimRight(dst, "/"))
+		dstAbsent := dstErr != nil
 		before := simkit.Snapshot(excl...)
 		log.Add(0, "op-start", fmt.Sprintf("unpack #%d", ai))
 		var uerr error
@@ -361,6 +367,10 @@ func Run(sc *uw.Scenario) *simkit.Outcome {
 
 		// ---- C01: nothing outside dst changed, whatever Unpack returned ----
 		for _, d := range simkit.DiffSnap(before, after) {
+			if dstAbsent && (parentTimesOnly(d, filepath.Dir(strings.TrimRight(dst, "/"))) || strings.HasPrefix(d, "created "+strings.TrimRight(dst, "/")+" (excluded-root:d")) {
+				// the destination did not exist: making it, as a directory, is an entry more in its parent
+				continue
+			}
 			out.Violate("C01", "outside-changed", c01Class(d, dec, classes), fmt.Sprintf("archive %d (err=%s): %s", ai, es, d))
 		}
 
@@ -818,4 +828,17 @@ func firstLinkOnPath(target, linkPath string, tree map[string]PNode) string {
 func ScenarioJSON(sc *uw.Scenario) json.RawMessage {
 	b, _ := json.Marshal(sc)
 	return b
+}
+
+var snapTimes = regexp.MustCompile(` [mc]time=[0-9-]+`)
+
+// parentTimesOnly: does the snapshot difference d say no more than that the
+// directory parent got a new modification and change time?
+func parentTimesOnly(d, parent string) bool {
+	pre := "changed " + parent + ": d "
+	if !strings.HasPrefix(d, pre) {
+		return false
+	}
+	halves := strings.SplitN(d[len(pre)-2:], " -> ", 2)
+	return len(halves) == 2 && snapTimes.ReplaceAllString(halves[0], "") == snapTimes.ReplaceAllString(halves[1], "")
 }
